@@ -4,13 +4,14 @@ from .tys import *   # noqa
 
 
 class ClassDecl(object):
-    def __init__(self, name, qual=None, fields=None, bases=(), doc='', hasattr_fields=None):
+    def __init__(self, name, qual=None, fields=None, bases=(), doc='', hasattr_fields=None, const_attrs=None):
         self.name = name
         self.qual = qual            # 'circus.watcher:Watcher' or None for a spec-only class
         self.fields = dict(fields or {})
         self.bases = tuple(bases)
         self.doc = doc
         self.hasattr_fields = dict(hasattr_fields or {})   # attr -> BOOL field deciding hasattr()
+        self.const_attrs = dict(const_attrs or {})         # attr -> python-side constant (e.g. a class object)
 
 
 class Loop(object):
@@ -42,12 +43,14 @@ class Contract(object):
     def __init__(self, qual, params=None, ret=None, requires=(), ensures=(), raises=None,
                  modifies=(), loops=None, trusted=False, kind='function', note='',
                  pure=False, defaults=None, exc_modifies=None, tags=(), must_fail=(), axioms=(),
-                 ghost_at=None, rely=None, detached=None, yield_guarantee=(), inline=None):
+                 ghost_at=None, rely=None, detached=None, yield_guarantee=(), inline=None, assumed=()):
         self.qual = qual
         self.params = dict(params or {})
         self.ret = ret
         self.requires = list(requires)
-        self.ensures = list(ensures)
+        # an ensures entry may be ('name', 'expr'): the obligation is then called post[name]
+        self.ensure_names = [e[0] if isinstance(e, tuple) else str(i) for i, e in enumerate(ensures)]
+        self.ensures = [e[1] if isinstance(e, tuple) else e for e in ensures]
         self.raises = dict(raises or {})
         self.modifies = list(modifies)
         self.loops = dict(loops or {})
@@ -63,6 +66,7 @@ class Contract(object):
         self.rely = rely                   # coroutine: name of the rely relation at suspension points
         self.detached = detached           # coroutine: contract of the synchronous prefix when not awaited
         self.yield_guarantee = list(yield_guarantee)
+        self.assumed = list(assumed)       # clauses assumed at call sites but NOT proved from the body (reported as assumptions)
         self.inline = inline               # pure accessor: result is exactly this spec expression (must also be an ensures)
         self.must_fail = list(must_fail)   # deliberately false postconditions (vacuity guard)
 
@@ -96,6 +100,7 @@ class Spec(object):
         self.axioms = {}           # group name -> list of spec expressions (ground facts)
         self.handlers = {}         # extern qual -> python handler(engine, st, args, kw, node)
         self.relies = {}           # name -> Rely
+        self.method_handlers = {}  # method name on an opaque object -> handler(engine, st, recv, args, node)
 
     def Class(self, name, **kw):
         c = ClassDecl(name, **kw)
